@@ -1094,7 +1094,7 @@ class TimeSeriesCausalGraph(CausalGraph):
 
         :param time_lag: Time lag to return nodes for. Default is `0`.
         """
-        return self._lag_to_nodes[time_lag]
+        return list(self._lag_to_nodes[time_lag])
 
     def get_nodes_for_variable_name(self, variable_name: str) -> List[TimeSeriesNode]:
         """
@@ -1102,7 +1102,7 @@ class TimeSeriesCausalGraph(CausalGraph):
 
         :param variable_name: Variable name to return nodes for.
         """
-        return self._variable_name_to_nodes[variable_name]
+        return list(self._variable_name_to_nodes[variable_name])
 
     def get_contemporaneous_nodes(self, node: NodeLike) -> List[TimeSeriesNode]:
         """Return all nodes that are contemporaneous (i.e. have the same time_lag) to the provided node."""
